@@ -13,10 +13,12 @@
   (`cbor_to_json`).  UBJSON as SOURCE, from the UBJSON parser refinement (C06) and the bridge
   between the two UBJSON grammars (SF/Proofs/UbjBridge*.lean): `ubjson_to_ubjson` (exactly the
   source's value), `ubjson_to_cbor`, `ubjson_to_json` (float-free sources with UTF-8 strings).
-  JSON as SOURCE (three pairs): the JSON parser refinement (C04 `json_reads_value`) gives the
-  events of every grammatical text; the composition with the encoders is decided by the
-  executable mirrors composed exactly as in the README + correspondence + oracle (both
-  documents decoded by the specifications).
+  JSON as SOURCE (namespace `SF.PropsJsonSrc.C08`), from the JSON parser refinement (C04) and the
+  facts that the parser delivers in-range int64 / uint64 / float64 events and well-formed UTF-8:
+  `json_to_cbor`, `json_to_ubjson`, `json_to_json` (float-free texts).  All nine pairs are
+  additionally decided by the executable mirrors composed exactly as in the README +
+  correspondence + oracle (both documents decoded by the specifications), which also covers
+  float-carrying sources into JSON.
 -/
 import SF.Props.C07
 import SF.Props.C05
@@ -24,6 +26,7 @@ import SF.Proofs.CborTree
 import SF.Proofs.UbjEncTop
 import SF.Proofs.JsonEncTop
 import SF.Proofs.UbjBridgeTop
+import SF.Proofs.JsonSrcTop
 namespace SF.Props.C08
 open SF SF.Cbor SF.Cbor.Cst SF.Props.C01
 
@@ -210,3 +213,66 @@ example :
   decide +kernel
 
 end SF.PropsUbjSrc.C08
+
+
+/-! ## JSON → CBOR, JSON → UBJSON, JSON → JSON -/
+
+namespace SF.PropsJsonSrc.C08
+open SF SF.Json SF.Json.Parse SF.Json.ParseP SF.Json.Grammar
+open SF.Ubjson.Enc (approx noBig)
+open SF.Ubjson.Wire (UItem)
+
+/-- C08, JSON → CBOR: for EVERY grammatical JSON text `t` (any nesting, any white space, every
+escape spelling, integers in [-2^63, 2^64), floats; `J.sized`: every string value, key and
+element count below 2^63 — implied by `t.bytes.length < 2^63`, `sized_of_short`), feeding the
+parser's events to the CBOR encoder yields a well-formed RFC 7049 item that the CBOR reference
+decoder reads back completely and whose value is the text's value.  No range condition on the
+numbers is needed: the parser delivers int64 / uint64 / float64 events in range. -/
+theorem json_to_cbor (t : Text) (h : t.good) (hz : t.v.sized = true) :
+    let evs := events (parse {} t.bytes).1
+    ∃ j : SF.Cbor.Cst.Item, j.ok = true ∧ (SF.Cbor.Enc.run {} (evs.map XEv.ev)).1.w.out = j.wire ∧
+      SF.Cbor.Cst.decode j.wire = .ok (j, []) ∧ j.value = t.v.value :=
+  SF.Props.JsonSrc.json_to_cbor t h hz
+
+theorem sized_of_short (t : Text) (h : t.bytes.length < 9223372036854775808) :
+    t.v.sized = true ∧ t.v.sizedS = true :=
+  SF.Props.JsonSrc.sized_of_short t h
+
+/-- C08, JSON → UBJSON: the UBJSON encoder's output for the parser's events is the wire form of a
+well-formed UBJSON item that the UBJSON reference decoder AND the UBJSON parser read back as ONE
+value: the text's value up to the documented representation change (an integer above MaxInt64
+becomes a high-precision string), EXACTLY the text's value when no number exceeds MaxInt64. -/
+theorem json_to_ubjson (t : Text) (h : t.good) (hz : t.v.sizedS = true) :
+    let evs := events (parse {} t.bytes).1
+    ∃ u : UItem, u.ok = true ∧ SF.Ubjson.Enc.encAll (evs.map XEv.ev) = u.wire ∧
+      SF.Ubjson.Cst.decodeStream (SF.Ubjson.Enc.encAll (evs.map XEv.ev)) = .ok [u.value] ∧
+      approx t.v.value u.value = true ∧ (noBig t.v.tree = true → u.value = t.v.value) ∧
+      (SF.Ubjson.Parse.parse {} u.wire).2 = none ∧
+      build (SF.Ubjson.Parse.events (SF.Ubjson.Parse.parse {} u.wire).1) = some u.value :=
+  SF.Props.JsonSrc.json_to_ubjson t h hz
+
+/-- C08, JSON → JSON: for EVERY grammatical JSON text without float tokens, feeding the parser's
+events to the JSON encoder (any options, fresh writer) succeeds and yields a text that the RFC
+8259 reference decoder accepts as exactly the source's value and that the JSON PARSER accepts
+again with the same value.  No UTF-8 condition: the parser delivers well-formed UTF-8 only. -/
+theorem json_to_json (o : SF.Json.Enc.Enc) (t : Text) (h : t.good) (hf : t.v.noFloat = true)
+    (hw : o.w = {}) (ha : o.inArray.current = false) :
+    let evs := events (parse {} t.bytes).1
+    (SF.Json.Enc.run o (evs.map XEv.ev)).2 = (none, .ok) ∧
+    (∃ v, SF.Json.Cst.decode (SF.Json.Enc.encAll o (evs.map XEv.ev)) = .ok [v] false ∧ v = t.v.value) ∧
+    (parse {} (SF.Json.Enc.encAll o (evs.map XEv.ev))).2 = none ∧
+    build (events (parse {} (SF.Json.Enc.encAll o (evs.map XEv.ev))).1) = some t.v.value :=
+  SF.Props.JsonSrc.json_to_json o t h hf hw ha
+
+/-- the source may arrive in ANY chunking: same events -/
+theorem json_source_any_chunking (t : Text) (h : t.good) (cs : List Bytes) (hcs : cs.flatten = t.bytes) :
+    (writeChunks {} cs).2 = none ∧ events (writeChunks {} cs).1 = events (parse {} t.bytes).1 :=
+  SF.Props.JsonSrc.json_source_any_chunking t h cs hcs
+
+/-- non-vacuity: the text of SF/Proofs/JsonSrcTop.lean (`exT`: MaxUint64, a lone surrogate, white
+space) meets every hypothesis of the three theorems except `noBig` -/
+example : SF.Props.JsonSrc.exT.good ∧ SF.Props.JsonSrc.exT.v.sized = true ∧
+    SF.Props.JsonSrc.exT.v.sizedS = true ∧ SF.Props.JsonSrc.exT.v.noFloat = true :=
+  ⟨SF.Props.JsonSrc.exT_good, by decide +kernel, by decide +kernel, by decide +kernel⟩
+
+end SF.PropsJsonSrc.C08
